@@ -3,6 +3,7 @@
 import importlib, json, os, sys, glob
 here = os.path.dirname(os.path.abspath(__file__))
 sys.path.insert(0, here)
+from vlib import common as C
 props = [json.loads(l) for l in open(os.path.join(here, "properties.jsonl"))]
 mods = {}
 for f in sorted(glob.glob(os.path.join(here, "vlib", "p_c*.py"))):
@@ -18,6 +19,13 @@ for p in props:
         continue
     m = mods[pid]
     n = NOTE.get(pid, {})
+    tie = C.gentie_applies(pid)
+    tech = n.get("technique", "Coq proof over hand-written Gallina model + differential correspondence check (vm_compute in coqc)")
+    note = n.get("note", "Trusted: " + "; ".join(m.TRUSTED) + ". Assumed: " + "; ".join(m.ASSUMPTIONS))
+    if tie:
+        tech += (" + source tie by translation: tools_rs2v.py regenerates Gallina definitions from the current Rust text of the "
+                 "word-level helpers / thin Uint wrappers in this property's files on every run and Properties/GenTie.v re-proves them equal to the model")
+        note += ("; tools_rs2v.py (Rust-subset to Gallina translator, trusted) and coq/Gen/Prim.v for the functions listed in evidence coverage.source_tie")
     checks.append({
         "property_id": pid,
         "quick_cmd": "./check %s --tier quick" % pid,
@@ -28,8 +36,8 @@ for p in props:
         "level_claimed": {"category": n.get("category", m.LEVEL),
                           "text": n.get("text", m.EXPLANATION),
                           "design_ref": "DESIGN.md §5 %s" % pid},
-        "level_note": n.get("note", "Trusted: " + "; ".join(m.TRUSTED) + ". Assumed: " + "; ".join(m.ASSUMPTIONS)),
-        "technique": n.get("technique", "Coq proof over hand-written Gallina model + differential correspondence check (vm_compute in coqc)"),
+        "level_note": note,
+        "technique": tech,
     })
 claimed = {c["property_id"] for c in checks}
 na = [{"property_id": p["id"], "reason": NOTE.get(p["id"], {}).get("na", "model and proof not yet integrated (work in progress, see DESIGN.md §5)")}
@@ -46,7 +54,7 @@ man = {
                  "kind_free_text": "Coq 8.16 theorems over a hand-written Gallina model; Rust harness (debug+release) vs model and executable spec evaluated by vm_compute inside coqc"}],
     "checks": checks,
     "not_applicable": na,
-    "notes": "See DESIGN.md and FRAMEWORK.md. ./check <id> decides one property; known_findings.jsonl lists recorded findings (14 repaired defects).",
+    "notes": "See DESIGN.md and FRAMEWORK.md. ./check <id> decides one property; known_findings.jsonl lists recorded findings (20 repaired defects, none open).",
 }
 json.dump(man, open(os.path.join(here, "MANIFEST.json"), "w"), indent=1)
 print("claimed:", sorted(claimed))
